@@ -95,6 +95,9 @@ def main():
     if spec is None:
         log("no check registered for %s" % pid)
         sys.exit(64)
+    only = os.environ.get("VERIF_ONLY")
+    if only:  # development aid: restrict to obligations whose name contains one of the comma-separated substrings
+        spec["obligations"] = [o for o in spec["obligations"] if any(s in o["name"] for s in only.split(","))]
     log("== %s (%s): %d obligations; repo=%s" % (pid, tier, len(spec["obligations"]), KR.REPO))
     logdir = os.path.join(LOGS, pid)
     nslots = int(os.environ.get("VERIF_JOBS", "12"))
